@@ -109,6 +109,8 @@ AuthShapes == {[cred |-> "cookie", age |-> 0], [cred |-> "cookie", age |-> 8 * 3
                [cred |-> "cookie", age |-> 16 * 3600 - 60], [cred |-> "basic", age |-> 0],
                \* a session from a login that long ago whose second factor was completed just now: the session is as old as its login
                [cred |-> "cookie_upgraded", age |-> 10 * 3600], [cred |-> "cookie_upgraded", age |-> 16 * 3600 - 120],
+               \* a CLI session cookie of a deployment that lets such sessions live for a week: authenticated that long ago
+               [cred |-> "cookie_cli_week", age |-> 10 * 3600], [cred |-> "cookie_cli_week", age |-> 30 * 3600],
                [cred |-> "kmcert", age |-> 3600], [cred |-> "kmcert", age |-> Day - 1],
                [cred |-> "kmcert", age |-> Day + 60], [cred |-> "kmcert", age |-> 30 * Day],
                [cred |-> "ipcert", age |-> 0],
